@@ -53,6 +53,7 @@ fn case_t<T: Sc>(rng: &mut Rng, case: u64, out: &mut CaseOut) {
     let (tiny, huge) = if T::IS_F64 { (1e-290, 1e290) } else { (1e-30, 1e30) };
     let cov_in_range = cov.d.iter().all(|v| *v == 0.0 || (v.abs() > tiny && v.abs() < huge)) && (0..cov.r).all(|i| cov.at(i, i) > tiny);
     let sigma2 = sf.stats.reduced_chi2().w();
+    let oracle_inv = scaled.as_ref().map(|(d, g, _)| OracleInverse::new(d, g));
     let ps = p_grid();
     let mut prev: Option<Vec<f64>> = None;
     let covf = cov.fro();
@@ -101,9 +102,9 @@ fn case_t<T: Sc>(rng: &mut Rng, case: u64, out: &mut CaseOut) {
                     worst = worst.max(ratio);
                 }
                 // independent reference: the oracle's own sigma^2 (H^T H)^-1 in f64
-                if let Some((d, g, kappa)) = &scaled {
+                if let (Some((_, _, kappa)), Some(inv)) = (&scaled, &oracle_inv) {
                     if sigma2.is_finite() && sigma2 > 0.0 {
-                        let refo2 = t * t * sigma2 * oracle_quadratic_form(d, g, &ji);
+                        let refo2 = t * t * sigma2 * inv.quad(&ji);
                         let tol_o = (rel + 256.0 * T::EPS * kappa) * refo2 + f64::MIN_POSITIVE;
                         let r2 = rad[i] * rad[i];
                         // only where the radius itself is representable in T
